@@ -1087,3 +1087,8 @@ def closure_arg_of(fn, site, index):
         if r.kind == "closure":
             return r.key
     return None
+
+
+def sig(roots):
+    """Significant roots: drop Deref/Pin/project plumbing calls and literal constants."""
+    return {r for r in roots if not (r.kind == "call" and is_transparent(r.site)) and r.kind != "const"}
